@@ -14,7 +14,7 @@ confirm=open(src+'/confirm.log').read().strip().splitlines()[-1] if os.path.exis
 caught={}
 for p in [prop]+extra:
     out=subprocess.run(['/verif/scripts/try_patch.sh',dst+'/patch.diff',p],capture_output=True,text=True,env=dict(os.environ,LINES_MAX='40',WIDTH='300')).stdout
-    rules=sorted(set(re.findall(r': (C\d+\.\d+)(?: \(undecided\))?:',out)))
+    rules=sorted(set(re.findall(r': (C\d+\.\d+|RT\.\d+)(?: \(undecided\))?:',out)))
     rc=re.search(r'exit=(\d)',out)
     caught[p]={'exit':int(rc.group(1)) if rc else None,'rules':rules}
 m=re.search(r'needs?[^\n]*\n+(.*?)(\n\n|\Z)',notes,re.S|re.I)
